@@ -406,6 +406,9 @@ def run(ctx):
     from ..smimpl import index as _index12
     rule_flag_independence(ctx, _index12(), mir, rid="R12.9")
 
+    # ------------------------------------------------------------------ R12.10 (generic, scoped to this property's anchors)
+    sm.rule_named_plumbing(ctx, mir, "C12", "R12.10", floor=30)
+
     ctx.not_decided += ["the prefix relation between the output of a failed run and of the complete run (run-time)"]
     ctx.assumptions += ["values listed in the reviewed non-emptiness table (lexeme raw bytes, validated names) are non-empty for the stated reasons"]
     return ("Who-may-call and dominance rules over every call that hands bytes to the OutputSink or to an output handler "
